@@ -242,6 +242,13 @@ def error_to_message(old_pr, log):
 
     next_pr = Pipe(old_pr.request, log)
 
+    def inherit_no_response(msg):
+        # Responses built from exceptions did not pass through a resource's
+        # render method that would copy the request's No-Response preference
+        if msg.opt.no_response is None:
+            msg.opt.no_response = old_pr.request.opt.no_response
+        return msg
+
     def on_event(event):
         if event.message is not None:
             old_pr.add_response(event.message, event.is_last)
@@ -270,12 +277,14 @@ def error_to_message(old_pr, log):
                     "Rendering the renderable exception failed: %r", e2, exc_info=e2
                 )
                 msg = Message(code=INTERNAL_SERVER_ERROR)
-            old_pr.add_response(msg, is_last=True)
+            old_pr.add_response(inherit_no_response(msg), is_last=True)
         else:
             log.error(
                 "An exception occurred while rendering a resource: %r", e, exc_info=e
             )
-            old_pr.add_response(Message(code=INTERNAL_SERVER_ERROR), is_last=True)
+            old_pr.add_response(
+                inherit_no_response(Message(code=INTERNAL_SERVER_ERROR)), is_last=True
+            )
 
         return False
 
